@@ -22,6 +22,7 @@ type GenOpts struct {
 	Tiny       bool // up-weight files of 0..16 bytes (C07)
 	PathOps    bool // up-weight rename / swap / chain / duplicate (C02)
 	ManyEdits  bool // files with many edits => many ops (C03)
+	ConstCap   int  // >0: constant content (zeros, period 1) longer than this becomes period 7: runs of one byte value are bsdiff's quadratic worst case (64KiB of zeros shifted by 2 bytes: 4s), which would turn "slow" into a watchdog matter in checks that run the optimizer
 	MaxOld     int  // max entries drawn for the old tree (default 6)
 	MaxOps     int  // max derivation operations (default 8)
 }
@@ -68,9 +69,15 @@ func GenContent(t *rapid.T, label string, o GenOpts) Content {
 	k := rapid.IntRange(0, 19).Draw(t, label+"-srckind")
 	switch {
 	case k == 0:
+		if o.ConstCap > 0 && n > o.ConstCap {
+			return Content{{Src: 107, Len: n}}
+		}
 		return Content{{Src: 0, Len: n}}
 	case k <= 2:
 		p := rapid.SampledFrom([]int{1, 2, 3, 7, 64, 4096, BS, BS + 1}).Draw(t, label+"-period")
+		if p == 1 && o.ConstCap > 0 && n > o.ConstCap {
+			p = 7
+		}
 		return Content{{Src: 100 + p, Len: n}}
 	default:
 		src := rapid.IntRange(1, 6).Draw(t, label+"-stream")
